@@ -103,6 +103,9 @@ def check(run, views, tier, with_ops=True):
         from ..engine import include
         from . import c10 as _c10
         include(run, _c10, views, tier, "IppRequestResponse::new")
+        # a request is serialised through IppAttributes::to_bytes itself (not through a variant of it with another leading list): C08's clause
+        from . import c08 as _c08
+        include(run, _c08, views, tier, "R-CHAIN|to_bytes")
     run.explanation = (
         "R-ORDERLIST / R-ENDTAG: the emission schedule of IppAttributes::to_bytes is extracted as an ordered event tree "
         "from the resolved HIR. The operation delimiter must be the first emission on every path; the ordered part is a "
